@@ -89,6 +89,8 @@ where
         .filter_map(|(_, x)| x)
         .map(|index| UniqueItem { lookup, index })
         .collect::<Vec<_>>();
+    #[cfg(similar_verif)]
+    crate::verif_hooks::on_unique_presort(rv.iter().map(|a| a.original_index()));
     rv.sort_by_key(|a| a.original_index());
     rv
 }
